@@ -63,7 +63,9 @@ func VerifHarness_C15_ConverterLines() {
 	loader, lerr := pkgload.New("/work", "", []string{})
 	verifAssert("loader", lerr == nil)
 	ctx := &context{Loader: loader, WorkDir: "/work"}
-	raw := &RawConverter{PackagePath: "example.org/m/in", PackageName: "in", FileName: "/work/in/in.go", Converter: own, Methods: map[string]RawLines{}}
+	// the block has one variable: it inherits the converter's settings as they are after all lines were read
+	raw := &RawConverter{PackagePath: "example.org/m/in", PackageName: "in", FileName: "/work/in/in.go", Converter: own, Methods: map[string]RawLines{"Conv": {Location: "in.go:9"}}}
+	verifStubReturn("(*github.com/jmattheis/goverter/pkgload.PackageLoader).GetOneRaw", nil, verifObj(), nil)
 
 	before := verifEffectCount("call:" + getMatching)
 	c, err := parseConverter(ctx, raw, global)
@@ -140,6 +142,8 @@ func VerifHarness_C15_ConverterLines() {
 		if !ok || opts == nil {
 			continue
 		}
+		// the functions are checked against the package the code is finally written to, wherever the extend line stands
+		verifAssert("extend-checked-against-the-final-output-package", opts.OutputPackagePath == c.OutputPackagePath)
 		if wantRegex[i] == "" {
 			verifAssert("extend-uses-the-context-regex-in-effect-at-its-line", opts.ContextMatch == nil)
 		} else {
@@ -150,6 +154,15 @@ func VerifHarness_C15_ConverterLines() {
 		verifAssert("final-context-regex", c.ArgContextRegex == nil)
 	} else {
 		verifAssert("final-context-regex", c.ArgContextRegex != nil && c.ArgContextRegex.String() == regex)
+	}
+	verifAssert("variable-parsed", len(c.Methods) == 1)
+	if len(c.Methods) == 1 {
+		m := c.Methods[0]
+		if regex == "" {
+			verifAssert("methods-inherit-the-final-context-regex", m.ArgContextRegex == nil)
+		} else {
+			verifAssert("methods-inherit-the-final-context-regex", m.ArgContextRegex != nil && m.ArgContextRegex.String() == regex)
+		}
 	}
 }
 
